@@ -9,6 +9,7 @@ package main
 
 import (
 	"bytes"
+	"crypto/sha256"
 	"encoding/binary"
 	"encoding/hex"
 	"encoding/json"
@@ -403,7 +404,8 @@ func runHistory(h history, corr bool, family string) {
 	key := ""
 	if nontrivial {
 		j, _ := json.Marshal(h)
-		key = string(j)
+		d := sha256.Sum256(j) // distinct by the whole history; the digest keeps the table small (histories carry up to 36000-byte arrays)
+		key = string(d[:])
 	}
 	rep.Count("history:"+family, key, nontrivial)
 	if nontrivial && (family == "core" || family == "reload-stale" || family == "random") && len(h.Ops) <= 8 {
@@ -650,7 +652,11 @@ func sizingCase(elements, tweak uint32, fprate float64, flags uint32, corr bool)
 			Ops: []opRec{{Op: "isloaded"}, {Op: "matches", Data: vh.Hex(x)}, {Op: "matchesoutpoint", Data: txid, Index: tweak}, {Op: "matches", Data: ""},
 				{Op: "add", Data: vh.Hex(x)}, {Op: "matches", Data: vh.Hex(x)}, {Op: "matches", Data: vh.Hex(x[1:])},
 				{Op: "addoutpoint", Data: txid, Index: tweak}, {Op: "matchesoutpoint", Data: txid, Index: tweak}}}
-		runHistory(h, corr && len(m.Filter) <= 4096, "newfilter-fresh")
+		// (in the 300000-case search sweep the large arrays - 288000 reference bits compared after each of the nine steps -
+		// are used as they are for one case in sixteen; every case still has the sizing monitors above)
+		if !cfg.Search || len(m.Filter) <= 4096 || rep.Histogram["sizing"]%16 == 0 {
+			runHistory(h, corr && len(m.Filter) <= 4096, "newfilter-fresh")
+		}
 		if m.HashFuncs == 0 && len(m.Filter) > 0 {
 			rep.Count("newfilter-fresh:k=0,non-empty", fmt.Sprintf("%d/%x", elements, math.Float64bits(fprate)), true)
 		}
@@ -1238,11 +1244,7 @@ func main() {
 	rep.Extra["sizing_observed"] = sizingTable
 	rep.Extra["note_sizing"] = "float64->uint32 conversion of out-of-range values (elements*ln(fprate) beyond 2^32, NaN from elements=0 or fprate=NaN) is implementation-defined in Go; the clamps minUint32(.,36000*8)/8 and minUint32(.,50) bound the result whatever it is (theorem C09_sizing_within_limits); values above are what this platform produced"
 
-	if cfg.Search {
-		runProdChild("-search")
-	} else {
-		runProdChild()
-	}
+	runProdChild() // at the driver's tier (the search pass runs with -tier thorough); the wide sweeps stay in the hooked binary
 	if !cfg.Search && !*prodChild {
 		_, err := cases.Flush()
 		vh.Must(err)
